@@ -378,6 +378,11 @@ class DataOps:
         listed = list(chosen)
         if o['a'][3] % 4 == 0:
             listed = listed + [listed[0]]          # a value named twice still selects each matching item once
+        if o['a'][4] % 3 == 0:
+            ab = gen.absent_like(chosen, set(vals))
+            if ab is not None:
+                listed = listed + [ab]             # a value no item carries selects nothing (whatever it would truncate to)
+                self.ctx.probe('absent_value_in_list')
         arg = chosen[0] if (len(chosen) == 1 and o['flag'] and len(listed) == 1) else (np.array(listed) if o['flag2'] else list(listed))
         try:
             res = getattr(obj, 'subset_' + axis)(by, arg)
@@ -863,7 +868,8 @@ def _add_data_producers():
                     name += f'+noise{nk}'
                 watched = _argfp(noise)
                 try:
-                    calc_rdm(obj, method=method, descriptor='cond', cv_descriptor=cvd, noise=noise)
+                    desc_arg = None if (o['a'][5] % 4 == 0 and method not in ('crossnobis', 'poisson_cv')) else 'cond'      # None: every observation its own pattern
+                    calc_rdm(obj, method=method, descriptor=desc_arg, cv_descriptor=cvd, noise=noise)
                 finally:
                     if _argfp(noise) != watched:
                         self.pool.report('C12', 'bystander', f'bystander:{name.split("+")[0]}:argument:noise',
